@@ -226,6 +226,52 @@ def one_history(ctx, r, nops, lines, expect, speclines, meta):
             return
 
 
+def sweep(ctx, lines, expect, speclines, meta):
+    """thorough tier: ALL histories of exactly 3 operations over a 5-label alphabet and 48 op templates
+    (every shorter history is a prefix of one of them)"""
+    import itertools
+    A = [0, 1, 2, 'a', ('a', 1)]
+    T = [('append', x) for x in A] + [('appendnone',), ('pop',), ('relabelints',)] + [('remove', x) for x in A]
+    T += [('relabel', {x: y}) for x in A for y in A] + [('relabel', {x: y, y: x}) for x, y in itertools.combinations(A, 2)]
+    n = 0
+    for seq in itertools.product(T, repeat=3):
+        v = Variables(); ref = Ref(); hist = []
+        lines.append('clear'); expect.append('ok ' + state(v)); speclines.append('ok '); meta.append(('clear', ()))
+        for op in seq:
+            before = state(v); ok = True
+            try:
+                if op[0] == 'append':
+                    lines.append(f'append {lab(op[1])} 0'); hist.append(f'v._append({op[1]!r})'); sok = ref.append(op[1], False); v._append(op[1])
+                elif op[0] == 'appendnone':
+                    lines.append('append - 0'); hist.append('v._append()'); sok = ref.append(None, False); v._append()
+                elif op[0] == 'pop':
+                    lines.append('pop'); hist.append('v._pop()'); sok = ref.pop(); v._pop()
+                elif op[0] == 'relabelints':
+                    lines.append('relabelints'); hist.append('v._relabel_as_integers()'); ref.l = list(range(len(ref.l))); sok = True; v._relabel_as_integers()
+                elif op[0] == 'remove':
+                    lines.append(f'remove {lab(op[1])}'); hist.append(f'v._remove({op[1]!r})'); sok = ref.remove(op[1]); v._remove(op[1])
+                else:
+                    m = op[1]
+                    lines.append('relabel ' + ','.join(f'{lab(a)}={lab(b)}' for a, b in m.items())); hist.append(f'v._relabel({m!r})')
+                    sok = ref.relabel(m); v._relabel(m)
+            except (ValueError, IndexError):
+                ok = False
+            expect.append(('ok ' if ok else 'err ') + state(v))
+            speclines.append(('ok ' if sok else 'err ') + ','.join(lab(x) for x in ref.l))
+            meta.append((op[0], tuple(hist)))
+            n += 1
+            ctx.case(('sweep', n), nontrivial=(state(v) != before) or not ok)
+            l = ref.l
+            good = (ok == sok and list(v) == l and (ok or state(v) == before)
+                    and all((x in v) == (x in l) and (x not in l or v.index(x) == l.index(x)) for x in A + [3, 4]))
+            if not good:
+                ctx.fail('property', f'Variables.{op[0]}', 'exhaustive small-scope history', f'list behaviour violated after {hist}: got {list(v)!r}, list {l!r}, raised={not ok}, list-rejects={not sok}',
+                         repro=repro(hist) + f"\nL = {l!r}\nassert list(v) == L and all((x in v) == (x in L) for x in [0, 1, 2, 3, 4, 'a', ('a', 1)])", detail=dict(history=list(hist)))
+                break
+    ctx.extra['exhaustive_sweep'] = dict(histories=len(T) ** 3, templates=len(T), labels=len(A), depth=3, ops=n)
+    ctx.notes.append(f'thorough: exhaustive sweep of all {len(T) ** 3} histories of 3 ops over {len(A)} labels x {len(T)} templates')
+
+
 def run(ctx):
     r = ctx.rng
     nhist = ctx.scale(500, 12000)
@@ -237,7 +283,8 @@ def run(ctx):
         one_history(ctx, r, 30, lines, expect, speclines, meta)
         if len([f for f in ctx.failures if f['kind'] == 'property']) >= 8:
             break
-    # small-scope exhaustive histories in the thorough tier
+    if not ctx.quick:
+        sweep(ctx, lines, expect, speclines, meta)
     got = run_driver('varsdriver', lines)
     ctx.corr_lines += len(lines)
     for i, ln in enumerate(lines):
